@@ -50,6 +50,7 @@ def run(rec, cfg):
         from . import c12 as _c12
 
         _c12.deep_repeat(rec, prop="C10")   # the same very long flat text asked repeatedly of one parser, default recursion limit
+        _c12.retry_with_more_stack(rec, prop="C10")   # a parse that ran out of stack, asked again with plenty
     seen = set()
 
     def one(s, parser=None):
@@ -181,6 +182,11 @@ def replay(rec, cfg, w):
 
         MP.attach_parser("C10", {"grammar", "closure", "history"})
         _W9.marathon(rec, cfg.rng("replay-marathon"), "C10")
+        return
+    if w.get("retry_with_more_stack"):
+        from . import c12 as _c12
+
+        _c12.retry_with_more_stack(rec, prop="C10")
         return
     if w.get("deep_repeat"):
         from . import c12 as _c12
